@@ -139,7 +139,10 @@ class _StatePointDict(JSONAttrDict):
                 if error.errno in (errno.EEXIST, errno.ENOTEMPTY, errno.EACCES):
                     # Also roll back the in-memory state point, otherwise the
                     # rejected value would silently be applied by the next edit.
+                    # (Start from an empty mapping: an in-place update keeps values
+                    # that merely compare equal, e.g. 1.0 instead of 1.)
                     with self._suspend_sync:
+                        self._data = {}
                         self._update(self._load_from_resource(), _validate=False)
                     raise DestinationExistsError(new_id)
                 else:
